@@ -249,10 +249,20 @@ func c08UnitOpen2Cap(t *testing.T, r *vr.Report, maxLen int) {
 	total := 0
 	r.Parallel(W, func(w int, c *vr.Report) {
 		n := 0
-		var rec func(seq []int)
-		rec = func(seq []int) {
-			n++
-			if n%W == w {
+		// shortest sequences first, so that the recorded instance of a violation class is a short one
+		for length := 0; length <= maxLen; length++ {
+			var rec func(seq []int)
+			rec = func(seq []int) {
+				if len(seq) < length {
+					for i := range alpha {
+						rec(append(seq[:len(seq):len(seq)], i))
+					}
+					return
+				}
+				n++
+				if n%W != w {
+					return
+				}
 				c08CheckOpen2Cap(c, alpha, locals, seq, false, stub)
 				if len(seq) >= 2 {
 					c08CheckOpen2Cap(c, alpha, locals, seq, true, stub)
@@ -261,14 +271,8 @@ func c08UnitOpen2Cap(t *testing.T, r *vr.Report, maxLen int) {
 					c.Sample(map[string]any{"part": "open2cap", "capabilities": c08SeqNames(alpha, seq)})
 				}
 			}
-			if len(seq) == maxLen {
-				return
-			}
-			for i := range alpha {
-				rec(append(seq[:len(seq):len(seq)], i))
-			}
+			rec(nil)
 		}
-		rec(nil)
 		if w == 0 {
 			total = n
 		}
@@ -432,7 +436,7 @@ func c08CheckStateChange(r *vr.Report, sc c08StateCase) {
 		r.Outcome(fmt.Sprintf("statechange:refused-%d/%d", res.NotifCode, res.NotifSub))
 		me, _ := verr.(*bgp.MessageError)
 		if me == nil || me.TypeCode != res.NotifCode || me.SubTypeCode != res.NotifSub {
-			r.Violationf(fmt.Sprintf("C08:refusal-messages:want=[NOTIF %d/%d]", res.NotifCode, res.NotifSub), sc, "OPEN {hold %d, AS %d, peer-as configured %d} must be refused with %d/%d; ValidateOpenMsg returns %v", sc.Remote.Hold, realAS, L.PeerAS, res.NotifCode, res.NotifSub, verr)
+			r.Violationf(fmt.Sprintf("C08:refusal-messages:want=%d/%d", res.NotifCode, res.NotifSub), sc, "OPEN {hold %d, AS %d, peer-as configured %d} must be refused with %d/%d; ValidateOpenMsg returns %v", sc.Remote.Hold, realAS, L.PeerAS, res.NotifCode, res.NotifSub, verr)
 		}
 		r.NT(fmt.Sprintf("sc|%v", sc))
 		return
